@@ -241,3 +241,27 @@ ADDED8 = {
 for _pid, _extra in ADDED8.items():
     t, text, note, ref = CLAIMED[_pid]
     CLAIMED[_pid] = (t, text + _extra, note, ref)
+
+ADDED9 = {
+ "C01": " Round 9: every macro of the embedded headers needs to be one (its expansion over opaque operands is not a plain call that evaluates each operand once, in order, before anything else: such a name stays a function value); every package-level function of env with a scope result returns a scope it allocated itself; the binder's adapter closures return their result adapter's results as they are (C20.verbatim adopted).",
+ "C02": " Round 9: the scope constructors return a scope this call allocated, never the scope they were given (C01.scope-new adopted).",
+ "C03": " Round 9: a part of the split try form whose nil-ness decides between handler and propagation is never nil on a path through a catch clause (clause-splitting helpers followed); an error obtained in one lap of a loop is tested in that loop.",
+ "C04": " Round 9: a channel kept in a struct field that is closed anywhere is closed once and sent on by the closing function only.",
+ "C05": " Round 9: nothing in the call closure of the reading and printing entry points inserts into or deletes from a package-level map outside a mutex (a concurrent map write is a fatal error, not a panic).",
+ "C06": " Round 9: the collection builders the reader calls refuse a key by its type only, never by a comparison of string contents or length.",
+ "C07": " Round 9: a function the evaluator or a builtin can reach that has no context of its own never makes one up for an evaluating call; where the caller has a deadline the try body's context is made by WithTimeout/WithDeadline (its Deadline() is the end of the share), through merges and context-making helpers.",
+ "C08": " Round 9: a part (element, field, assertion) of an evaluating call's result counts as that call's result for the tail rule; the evaluator model follows the form when it is kept in a cell (captured by a closure of EVAL).",
+ "C09": " Round 9: C20.verbatim and C20.results adopted (what swap!/reset!/deref return is what the operation returned).",
+ "C11": " Round 9: every store into the remaining fields of atoms and futures (metadata, channels, cancel function) is made on a fresh object or under its write lock, from any package; the binding table of a scope never leaves the scope's methods (not returned, stored, boxed or passed).",
+ "C12": " Round 9: the macro test answers anything but false only where its form is known to be a List; the quasiquote transform and its helpers use no partial string match (HasPrefix and the like).",
+ "C13": " Round 9: a program-supplied count is subtracted from a length only where it is proven non-negative; an error obtained in one lap of a loop is tested in that loop.",
+ "C15": " Round 9: NewKeyword is an injective encoding and the collection builders accept every string as key (C06.keyword, C06.key-content shared).",
+ "C16": " Round 9: the advancing and the non-advancing token accessor hand out the same token (entry position, one store of position+1 after the read, no loop).",
+ "C17": " Round 9: no catch handler of the embedded headers hands what it caught to throw, directly or through a header function that throws its parameter.",
+ "C18": " Round 9: the binding table of a scope never leaves the scope's methods (C11.table-private adopted as C18.scope-table).",
+ "C19": " Round 9: no map is keyed by, and no == applied to, a struct that holds a source position; every loop of package lnotation stores into the result on every path round the loop.",
+ "C20": " Round 9: the adapter closures return exactly their result adapter's two results; the bounds the adapters capture come only from the declaration, the signature count, constants, the guarded context increment or a bounds helper (followed); a scope method that applies a function it was given holds the scope's write lock across read, call and store.",
+}
+for _pid, _extra in ADDED9.items():
+    t, text, note, ref = CLAIMED[_pid]
+    CLAIMED[_pid] = (t, text + _extra, note, ref)
